@@ -21,6 +21,8 @@ pub struct Ctx {
     /// set by ./check when the built crate owns writable static data (hidden state): the call-history
     /// probes then run at their thorough size whatever the tier
     pub escalate: bool,
+    /// runtime addresses of the crate's writable statics, when ./check found any (observation hook)
+    pub statics: Option<crate::statewatch::Watch>,
 }
 
 impl Ctx {
